@@ -1049,6 +1049,9 @@ func (h *handler) handle(ctx context.Context, nextCid cid.Cid, sel ipld.Node, sy
 		if err != nil {
 			return 0, err
 		}
+		if segSync.err != nil {
+			return 0, segSync.err
+		}
 		log.Debugw("Non-segmented sync completed", "syncedCount", syncedCount)
 		return syncedCount, nil
 	}
